@@ -28,6 +28,17 @@ if TYPE_CHECKING:
     from nrel.hive.state.simulation_state.simulation_state import SimulationState
 
 
+def _charger_can_serve(station, charger_id: ChargerId, vehicle, env: Environment) -> bool:
+    """
+    false only when the station has this charger type and the vehicle's powertrain cannot use it
+    """
+    mechatronics = env.mechatronics.get(vehicle.mechatronics_id)
+    charger_state = station.state.get(charger_id)
+    if mechatronics is None or charger_state is None:
+        return True
+    return mechatronics.valid_charger(charger_state.charger)
+
+
 @dataclass(frozen=True)
 class DispatchStation(VehicleState):
     vehicle_id: VehicleId
@@ -92,6 +103,11 @@ class DispatchStation(VehicleState):
             and vehicle.vehicle_state.charger_id == self.charger_id
         ):
             # already waiting in this very queue: the plug is granted by the queue, in order of arrival
+            return None, None
+        elif not _charger_can_serve(station, self.charger_id, vehicle, env):
+            # a plug of a type this vehicle cannot use (a battery vehicle at a gas pump, a combustion vehicle at an
+            # electric plug): neither plugging in nor queueing would ever succeed and the vehicle would be stuck at
+            # the station, so the dispatch is refused
             return None, None
         elif station.geoid == vehicle.geoid:
             # already there!
